@@ -30,6 +30,7 @@
  R9 fibre lists   : split_fiber and add_inline_amplifier are applied to every fibre class (truth table), and only to fibres.
  Rz sentinel      : fields defaulted when None are None when absent from the input (loader .get without another default).
  R10 defaults/kind: connector defaults of the same side; amplifier kind decided on the frozen side of the OMS per insertion function.
+ R11 band cover     : band eligibility of amplifier models includes the edges (shared with C10).
 """
 import ast
 
@@ -621,6 +622,15 @@ def r10_defaults_and_kind(ctx):
     ctx.need('R10.amplifier-kind', 3)
 
 
+
+def r11_band_cover(ctx):
+    """R11: an amplifier model is eligible for a design band when it covers it (model.f_min <= band.f_min and band.f_max <=
+    model.f_max, edges included): a band equal to the model's range must not abort the design - rule shared with C10"""
+    from .c10 import r2_band_cover as _r
+    from .common import proxy
+    _r(proxy(ctx, 'R11'))
+
+
 from ..memo import rule_for as _memo_rule
 
 RULES_MEMO = ('Rm.memo', _memo_rule('C08', 'a structural decision taken for another element would be reused'))
@@ -631,4 +641,4 @@ from ..presence import rule_for as _presence_rule
 RULES_PRESENCE = ('Rp.presence', _presence_rule('C08', 'a legal zero would be read as missing'))
 
 RULES = [('R1.surgery', r1_surgery), ('R2.edge-weight', r2_weights), ('R3.completeness', r3_completeness), ('R4.split', r4_split),
-         ('R5.order', r5_order), ('R6.every-oms', r6_every_oms), RULES_MEMO, RULES_PRESENCE, ('R7.span-walk', r7_span_walk), ('Ru.units', ru_units), ('Rv.verbose-pure', rv_verbose), ('Re.for-each', re_foreach), ('Rn.arg-roles', rn_arg_roles), ('R9.fibre-lists', r9_fibre_lists), ('Rz.sentinel', rs_sentinel), ('R10.defaults-and-kind', r10_defaults_and_kind)]
+         ('R5.order', r5_order), ('R6.every-oms', r6_every_oms), RULES_MEMO, RULES_PRESENCE, ('R7.span-walk', r7_span_walk), ('Ru.units', ru_units), ('Rv.verbose-pure', rv_verbose), ('Re.for-each', re_foreach), ('Rn.arg-roles', rn_arg_roles), ('R9.fibre-lists', r9_fibre_lists), ('Rz.sentinel', rs_sentinel), ('R10.defaults-and-kind', r10_defaults_and_kind), ('R11.band-cover', r11_band_cover)]
